@@ -138,7 +138,7 @@ def prepare(tier):
 
 
 def shards(tier, seed):
-    """quick: 7 NVX shards per framework + one pure-Python shard per framework = 16 processes, ~45 s each;
+    """quick: 7 NVX shards per framework + one pure-Python shard per framework = 16 processes, ~30 s of CPU each;
     thorough: 4 NVX + 4 pure-Python shards per framework = 16 processes, ~5-6 min of CPU each."""
     out = []
     nvx_env = _nvx_env()
@@ -152,13 +152,13 @@ def shards(tier, seed):
     for ename, env in envs:
         for fw in ("tx", "aio"):
             for i in range(per_fw):
-                out.append({"name": "%s-%s-%d" % (fw, ename, i), "fw": fw, "env": env, "timeout": 2400,
+                out.append({"name": "%s-%s-%d" % (fw, ename, i), "fw": fw, "env": env, "timeout": 14400,
                             "params": {"tier": tier, "seed": seed, "part": i, "parts": per_fw, "fw": fw,
                                        "nvx": ename == "nvx"}})
     if tier == "quick":
         # one pure-Python pass per framework in the quick tier too (masker/validator selection happens at import time)
         for fw in ("tx", "aio"):
-            out.append({"name": "%s-pure-q" % fw, "fw": fw, "env": pure_env, "timeout": 1200,
+            out.append({"name": "%s-pure-q" % fw, "fw": fw, "env": pure_env, "timeout": 14400,
                         "params": {"tier": tier, "seed": seed, "part": 0, "parts": 1, "fw": fw, "nvx": False,
                                    "mini": True}})
     return out
@@ -170,7 +170,7 @@ def shards(tier, seed):
 
 def xmask_key(j):
     """The explicit mask key handed to sendFrame(mask=..) for the j-th frame of a message."""
-    return bytes([0x41 + j, 0x62, 0x63, 0x64])
+    return bytes([(0x41 + j) & 0xFF, 0x62, 0x63, 0x64])
 
 
 def _pick_len(rng, tier, big_ok=True):
@@ -1332,20 +1332,20 @@ def run_shard(params, R):
     mini = bool(params.get("mini"))
     # 2. glue: first frames in the segment of the opening handshake response
     t1 = time.time()
-    for i in range(100 if thorough else (6 if mini else 15)):
+    for i in range(100 if thorough else (5 if mini else 10)):
         for glue in ("one", "nodrain", str(rng.choice([0, 1, 2, 3, 5, 6, 7, 9, 13]))):
             run_case({"kind": "glue", "seed": S(), "tier": tier, "glue": glue,
                       "n_msgs": rng.choice([2, 3, 5, 8])}, R)
     phase["glue"] = round(time.time() - t1, 1)
     # 3. early data at the server
     t1 = time.time()
-    for i in range(100 if thorough else (4 if mini else 11)):
+    for i in range(100 if thorough else (4 if mini else 8)):
         for glue in ("one", "1", "2", "5", "6", "7"):
             run_case({"kind": "early", "seed": S(), "glue": glue}, R)
     phase["early"] = round(time.time() - t1, 1)
     # 4. every cut position of short streams (every pair of cut positions for some of them in thorough)
     t1 = time.time()
-    for i in range(14 if thorough else (2 if mini else 5)):
+    for i in range(14 if thorough else (2 if mini else 4)):
         cs = S()
         probe = CaseRun({"kind": "cuts", "seed": cs, "tier": tier}, R).run()
         lens = getattr(probe, "stream_len", {})
@@ -1365,7 +1365,7 @@ def run_shard(params, R):
     # 5. random cases
     t1 = time.time()
     # fixed amounts of work, not wall time: the same seed runs the same cases on a loaded machine too
-    n_rand = 170 if not thorough else 1400
+    n_rand = 110 if not thorough else 1400
     for i in range(n_rand):
         kind = "glue" if rng.random() < 0.12 else "pair"
         case = {"kind": kind, "seed": S(), "tier": tier}
